@@ -54,6 +54,7 @@ Bad(e) ==
           THEN {"C20.read"} ELSE {})
   \cup (IF ~rerr' /\ e.rem # Len(rin') THEN {"C20.rem"} ELSE {})
   \cup (IF rerr /\ e.err # rmsg THEN {"C20.sticky.r"} ELSE {})
+  \cup (IF e.stale THEN {"C20.earlier_result_changed"} ELSE {})    \* a value read earlier no longer reads the same
   \cup (IF /\ e.mi > 0 /\ ~rerr' /\ CleanUpTo(e.mi)
            /\ ~(wlog[e.mi].k \in {"C", "F"} /\ HasNul(wlog[e.mi].v))
            /\ e.out # wlog[e.mi].v
